@@ -251,8 +251,37 @@ def gen_case(world, tier, prop):
       extra = [token() for _ in range(rng.randint(1, 2))]
     ops.append({'op': 'call', 'b': rng.randrange(nb), 'extra': extra,
                 'over': over})
+  frng = world.stream('fault')
+  plan = {}
+  uids = _factory_uids(root)
+  if uids and frng.random() < 0.25:
+    plan['fail'] = {'uid': frng.choice(uids), 'nth': frng.randint(1, 3)}
+  elif uids and frng.random() < 0.2:
+    plan['reenter'] = {'uid': frng.choice(uids)}
   return {'defs': defs, 'root': {'share': root['id']}, 'ops': ops,
-          'decoys': rng.random() < 0.5}
+          'decoys': rng.random() < 0.5, 'plan': plan}
+
+
+def _factory_uids(d, acc=None):
+  """uids of the ArgFactory nodes (with a uid) inside a descriptor."""
+  if acc is None:
+    acc = []
+  if isinstance(d, dict):
+    nd = d.get('node')
+    if nd and nd['btype'] == 'ArgFactory':
+      u = nd['kwargs'].get('uid', nd['args'][0] if nd['args'] else None)
+      if isinstance(u, int):
+        acc.append(u)
+    for v in d.values():
+      _factory_uids(v, acc)
+  elif isinstance(d, list):
+    for v in d:
+      _factory_uids(v, acc)
+  return acc
+
+
+class PlannedFailure(Exception):
+  """Raised by a factory when the fault plan says so."""
 
 
 # --------------------------------------------------------------------------
@@ -305,6 +334,30 @@ def run(case):
     gc.collect()
     del rec.log[:]
     probes['with_decoy_history'] = 1
+  plan = case.get('plan') or {}
+  side = {'now': None, 'callable': None, 'depth': 0}
+  counts = {}
+
+  def on_invoke(r):
+    u = r.args.get('uid')
+    if side['now'] is None:
+      return
+    if plan.get('fail') and u == plan['fail']['uid']:
+      k = (side['now'], u)
+      counts[k] = counts.get(k, 0) + 1
+      if counts[k] == plan['fail']['nth']:
+        faults['factory_raises'] = faults.get('factory_raises', 0) + 1
+        raise PlannedFailure(f'factory {u} fails on its invocation #{counts[k]}')
+    if plan.get('reenter') and u == plan['reenter']['uid'] and side['depth'] == 0:
+      # the factory calls the very partial it is being evaluated for, with every
+      # factory-backed keyword overridden (bounded, legitimate re-entrancy)
+      side['depth'] += 1
+      try:
+        side['callable'](**side['over_all'])
+        faults['reentrant_call'] = faults.get('reentrant_call', 0) + 1
+      finally:
+        side['depth'] -= 1
+  rec.on_invoke = on_invoke
   for idx, op in enumerate(case['ops']):
     res['steps'] += 1
     if op['op'] == 'build':
@@ -339,16 +392,36 @@ def run(case):
       continue
     bi = op['b'] % len(built_i)
     extra, over = list(op['extra']), dict(op['over'])
+    ref = built_m[bi]
+    dyn_kw = {n: 0 for n, t in ref.kwargs_t.items() if t[0] == 'dyn'}
+    reenter_ok = not any(t[0] == 'dyn' for t in ref.args_t)
+    side.update(now='model', callable=ref, over_all=dyn_kw)
+    if not reenter_ok:
+      side['depth'] = 1   # positional factories cannot be overridden: no re-entry
     try:
-      rm = built_m[bi](*extra, **over)
+      rm = ref(*extra, **over)
       em = None
-    except TypeError as e:
+    except (TypeError, PlannedFailure) as e:
       rm, em = None, e
+    side.update(now='impl', callable=built_i[bi])
     try:
       ri = built_i[bi](*extra, **over)
       ei = None
     except Exception as e:  # pylint: disable=broad-except
       ri, ei = None, e
+    side.update(now=None, depth=0)
+    if isinstance(em, PlannedFailure):
+      # a factory failed part-way through this call: the call must fail the
+      # same way, and LATER calls must be unaffected (checked by the next ops)
+      if not isinstance(ei, PlannedFailure):
+        res['violations'].append(V(
+            'factory-failure-not-propagated',
+            f'op #{idx} {op}: a factory raised but the call '
+            + (f'returned {C.short(C.canon(ri, opaque_callables=True))}' if ei is None
+               else f'raised {type(ei).__name__}: {C.norm_text(str(ei))[:200]}'), **feat))
+        return res
+      probes['calls_failed_by_factory'] = probes.get('calls_failed_by_factory', 0) + 1
+      continue
     if em is not None:
       faults['rejected_op'] = faults.get('rejected_op', 0) + 1
       if ei is None:
@@ -509,6 +582,8 @@ class Machine:
       if case.get('_shrunk'):
         return {'violations': [], 'discarded': 'dangling'}
       raise
+    finally:
+      stubs.CURRENT.on_invoke = None
 
   def shrink_candidates(self, case):
     for c in shrink_candidates(case):
